@@ -82,11 +82,61 @@ def source(r):
 
 def plan(tier, seed):
     n = 1200 if tier == "quick" else 16000
-    return [{"seed": seed, "chunk": i, "n": 40} for i in range(n // 40)]
+    specs = [{"seed": seed, "chunk": i, "n": 40} for i in range(n // 40)]
+    # sources that need slightly more than the compiler's 1024 rewrites: normally rejected for the budget (then not
+    # judged); if a tree compiles them, the result must still be the hygienic one
+    specs += [{"seed": seed, "chunk": i, "kind": "overflow"} for i in range(6 if tier == "quick" else 48)]
+    return specs
+
+
+def overflow_source(r):
+    """K inner uses of a save/restore macro (rewrites 0..K-1), ~1020 filler rewrites, then the enclosing use"""
+    K = 6
+    fill = r.randint(1014, 1026)
+    a = "a"
+    inner = " ; ".join("KEEP v%d OVER v%d := %d END" % (i, i, 50 + i) for i in range(K))
+    body = "%s ; %s := %d %s" % (inner, a, r.randint(100, 200), " SKIP" * fill)
+    init = " ".join("v%d := %d ;" % (i, i + 1) for i in range(K))
+    text = ("DEFINE KEEP <ID> OVER <P> END AS #0 := $0 ; $1 ; $0 := #0 END DEFINE\nDEFINE SKIP AS END DEFINE\n"
+            "%s := 5 ; %s\nKEEP %s OVER %s END" % (a, init, a, body))
+    return {"main": text}, "main"
+
+
+def work_overflow(spec, part):
+    r = common.rng(spec["seed"], "C10overflow", spec["chunk"])
+    files, main = overflow_source(r)
+    part["evals"] += 1
+    case = {"mode": "run", "main": main, "files": files, "opts": [("budget", 100000), ("program", 0), ("abandon", 60)]}
+    outs, _ = common.run_batch([case])
+    o = outs[0]
+    if common.abnormal(ID, case, o, part, "on a source needing more than 1024 rewrites"):
+        return
+    if not o["ok"]:
+        part["stats"]["overflow:rejected-for-budget" if any("too many macro substitutions" in e[1] for e in o["errors"]) else "overflow:rejected-otherwise"] += 1
+        return
+    f = pipeline.front(files, main, budget=20000)
+    if not f.verdict:
+        part["stats"]["overflow:reference-rejects"] += 1
+        return
+    st, interp = pipeline.run(f, 100000)
+    exp = interp.final()
+    bad = []
+    for (rn, rv), (_, ov) in zip(exp, o["acts"]):
+        for k, v in rv.items():
+            if not k.startswith("\x00") and ov.get(k) != v:
+                bad.append("%s = %s, hygienic expansion gives %d" % (k, ov.get(k), v))
+    if bad:
+        part["violations"].append({"signature": "end-to-end:values-differ-beyond-budget", "message":
+                                   "source needing %d rewrites was compiled; %s" % (f.nrewrites, "; ".join(bad[:4])), "case": common.slim_case(case)})
+        return
+    part["stats"]["overflow:compiled-and-agrees"] += 1
 
 
 def work(spec):
     part = harness.new_partial()
+    if spec.get("kind") == "overflow":
+        work_overflow(spec, part)
+        return part
     r = common.rng(spec["seed"], "C10", spec["chunk"])
     srcs = [source(r) for _ in range(spec["n"])]
     budget = 300
